@@ -4,6 +4,7 @@ import (
 	"fmt"
 	"go/ast"
 	"go/printer"
+	"go/types"
 	"strings"
 )
 
@@ -19,6 +20,10 @@ func (p *Prog) Src(n ast.Node) string {
 
 func doDump(p *Prog, what string) {
 	switch {
+	case what == "intdiv":
+		for _, d := range p.IntDivisions() {
+			fmt.Printf("%s in %s: %s   divisor=%s\n", p.Pos(d.Expr), d.Fn.Name, p.Src(d.Expr), p.R(d.Fn).Val(d.Expr.Y))
+		}
 	case what == "alias":
 		dumpAlias(p)
 	case what == "funcs":
@@ -68,4 +73,41 @@ func dumpAlias(p *Prog) {
 	for _, a := range p.AliasingAppends() {
 		fmt.Printf("%s %s in %s: %s\n", p.Pos(a.Call), a.Field, a.Fn.Name, p.Src(a.Call))
 	}
+}
+
+// IntDivisions lists integer / and % whose divisor is not a non-zero constant.
+type IntDiv struct {
+	Expr *ast.BinaryExpr
+	Fn   *Func
+}
+
+func (p *Prog) IntDivisions() []IntDiv {
+	var out []IntDiv
+	for _, f := range p.All {
+		if p.IsGenerated(f.Body) {
+			continue
+		}
+		inspectNoLit(f.Body, func(n ast.Node) bool {
+			be, ok := n.(*ast.BinaryExpr)
+			if !ok || (be.Op.String() != "/" && be.Op.String() != "%") {
+				return true
+			}
+			t := f.Info().TypeOf(be.Y)
+			if t == nil {
+				return true
+			}
+			bt, ok := t.Underlying().(*types.Basic)
+			if !ok || bt.Info()&types.IsInteger == 0 {
+				return true
+			}
+			if tv, ok := f.Info().Types[be.Y]; ok && tv.Value != nil {
+				if tv.Value.String() != "0" {
+					return true
+				}
+			}
+			out = append(out, IntDiv{be, f})
+			return true
+		})
+	}
+	return out
 }
